@@ -20,7 +20,8 @@ Deg(e) == CASE e \in {"P1", "DG1", "vP1", "symP1", "RT1", "N1", "BDM1", "RTxDG0"
 
 \* integrand shapes; rank is implied
 Terms == {"mass", "stiff", "conv", "coefmass", "xmass", "cten", "divdiv", "curlcurl", "mixeddiv",
-          "load", "gradload", "energy", "xint", "deriv", "cond", "absmax", "tworules", "hess", "cplx"}
+          "load", "gradload", "energy", "xint", "deriv", "cond", "absmax", "tworules", "hess", "cplx",
+          "mathfn", "mathfn2", "cmathfn", "bessel"}
 Rank(t) == CASE t \in {"load", "gradload"} -> 1 [] t \in {"energy", "xint"} -> 0 [] OTHER -> 2
 \* polynomial degree added by the term on top of the two element degrees (coefficient/x factors)
 Extra(t) == CASE t \in {"conv", "coefmass", "xmass", "cplx"} -> 1 [] t = "xint" -> 2 [] OTHER -> 0
@@ -50,6 +51,8 @@ Valid(c) ==
   \* term / element compatibility
   /\ (c.term \in {"conv", "cond", "absmax", "hess", "deriv", "cplx"} => Scalar(c.elem) /\ c.elem \notin {"real", "quad"})
   /\ (c.term = "cplx" => c.elem \in {"P1", "P2", "DG1"} /\ c.rule # "exact")
+  \* transcendental functions of coefficients / constants / x: libm on exact arguments (never an exact rule)
+  /\ (c.term \in {"mathfn", "mathfn2", "cmathfn", "bessel"} => c.elem \in {"P1", "P2", "DG1", "DG0"} /\ c.rule # "exact")
   /\ (c.term \in {"stiff", "cten", "gradload"} => ~Piola(c.elem) /\ c.elem \notin {"DG0", "real", "quad"})
   /\ (c.term = "divdiv" => c.elem \in {"vP1", "vP2", "RT1", "BDM1"})
   /\ (c.term = "curlcurl" => c.elem = "N1" \/ (c.elem \in {"vP1", "vP2"} /\ Tdim(c.cell) = 3))
